@@ -13,7 +13,10 @@ def roles(root):
     for n in fn.body:
         if isinstance(n, ast.For) and isinstance(n.target, (ast.Tuple, ast.List)) and len(n.target.elts) == 3 and all(isinstance(e, ast.Name) for e in n.target.elts):
             names = [e.id for e in n.target.elts]
-            if any(isinstance(c, ast.Call) and [ast.unparse(a) for a in c.args] == names for c in ast.walk(n)): loop = n; break
+            def _hands_over(c):
+                a_ = [ast.unparse(x) for x in c.args]
+                return any(a_[i:i + 3] == names for i in range(len(a_) - 2))      # (obj, attr, crossref) handed on, directly to a provider or to a helper that picks one
+            if any(isinstance(c, ast.Call) and _hands_over(c) for c in ast.walk(n)): loop = n; break
     if loop is None: raise AnalysisError("resolver loop not found (a loop over (obj, attr, crossref) triples that hands them to a scope provider)")
     R.loop = loop; R.v_obj, R.v_attr, R.v_ref = [e.id for e in loop.target.elts]
     R.work = ast.unparse(loop.iter)
